@@ -245,6 +245,18 @@ func cmdCheck(args []string) int {
 		fmt.Printf("dumped %d queries to %s\n", len(qs), *dump)
 		return 0
 	}
+	// an obligation listed as an open known finding is expected not to discharge: it gets one
+	// short attempt (enough to notice that it has started to hold) instead of the full time-out and retry
+	for _, q := range qs {
+		for _, f := range findings {
+			if f.Status == "open" && f.matches(id, q.Name) {
+				if q.Meta == nil {
+					q.Meta = map[string]string{}
+				}
+				q.Meta["knownopen"] = "1"
+			}
+		}
+	}
 	res := x.dischargeAll(qs, *tier, 16)
 	agg := aggregate(res)
 
@@ -372,7 +384,7 @@ func cmdCheck(args []string) int {
 		"solver_seconds":        round3(solverS),
 		"generation_seconds":    round3(genS),
 		"slowest_obligation":    map[string]interface{}{"name": slowest, "seconds": round3(slowestS)},
-		"slowest_path_query":    map[string]interface{}{"obligation": slowQ, "seconds": round3(slowQS), "timeout_seconds": map[string]int{"quick": 10, "thorough": 60}[*tier]},
+		"slowest_path_query":    map[string]interface{}{"obligation": slowQ, "seconds": round3(slowQS), "timeout_seconds": map[string]int{"quick": 20, "thorough": 60}[*tier]},
 		"queries_retried_after_timeout": retried,
 		"smoke_checks":          smokeN,
 		"smoke_failed":          smokeBad,
